@@ -1488,4 +1488,62 @@ theorem parseSpec_str_valmode (cfg : Cfg) (hv : cfg.valMode = true) (fl : Str) (
     show ('s' == 'c') = false from rfl, Bool.false_eq_true, if_false, beq_self_eq_true, true_or, if_true, hv]
   rw [emitFloat_spec cfg fl w p wf 'g' (by simp) a, recompose_libcState fl w p wf 'g', specText_length]
 
+/-! ### val.c -/
+
+theorem countDigits_eq (t : Nat) (ht : 0 < t) : countDigits t = (revDigits 10 false t).length := by
+  induction t using Nat.strongRecOn with
+  | _ t ih =>
+    rw [countDigits, revDigits_eq 10 false t (by omega)]
+    simp only [ht, dif_pos]
+    by_cases h : t / 10 > 0
+    · simp only [h, if_true, List.length_cons]
+      rw [ih (t / 10) (Nat.div_lt_self ht (by omega)) h]
+    · have h0 : t / 10 = 0 := by omega
+      simp only [h, if_false, List.length_singleton, h0]
+      rw [countDigits]; simp
+
+theorem intText_eq_render (v : Int) : intText v = CSpec.render (cspec [] .none .none 'd') v := by
+  have hd : ∀ n : Nat, CSpec.digits 'd' n = decimal n := by
+    intro n; rw [decimal_eq]; simp [CSpec.digits, CSpec.base]
+  have hpos : ∀ n : Nat, 0 < (decimal n).length := by
+    intro n; unfold decimal; rw [List.length_reverse]; exact revDigits_length_pos _ _ _
+  rw [intText_eq]
+  simp only [CSpec.render, cspec, CSpec.resolve, flagsOf, WSpec.val, PSpec.val, CSpec.signOf, CSpec.prefixOf, CSpec.numOf,
+    CSpec.digitsOf, CSpec.mag, CSpec.signed, List.foldl_nil, Option.getD_none]
+  have hz : ∀ n : Nat, CSpec.zeros (1 - (decimal n).length) = [] := by
+    intro n; have := hpos n; simp [CSpec.zeros]; omega
+  by_cases hv : v < 0
+  · have : (-v).toNat = v.natAbs := by omega
+    simp [hv, hd, hz, this, spaces]
+  · have : v.toNat = v.natAbs := by omega
+    simp [hv, hd, hz, this, spaces]
+
+theorem intRlen_exact (v : Int) : intRlen v = (intText v).length := by
+  rw [intText_eq, intRlen]
+  by_cases h0 : v = 0
+  · subst h0; simp [decimal_zero]
+  · have hn : 0 < v.natAbs := by omega
+    simp only [h0, if_false]
+    rw [countDigits_eq _ hn]
+    by_cases hv : v < 0
+    · have : (-v).toNat = v.natAbs := by omega
+      simp [hv, this, decimal]; omega
+    · have : v.toNat = v.natAbs := by omega
+      simp [hv, this, decimal]
+
+theorem intCells_eq (v : Int) : intCells v (intRlen v) = intText v := by
+  have hl := intRlen_exact v
+  rw [intCells]
+  by_cases h0 : v = 0
+  · subst h0; simp [intRlen, intText_eq, decimal_zero]
+  · simp only [h0, if_false]
+    rw [intText_eq] at hl ⊢
+    by_cases hv : v < 0
+    · have : (-v).toNat = v.natAbs := by omega
+      simp only [hv, if_true, this] at hl ⊢
+      rw [hl]; simp [decimal]
+    · have : v.toNat = v.natAbs := by omega
+      simp only [hv, if_false, this] at hl ⊢
+      rw [hl]; simp [decimal]
+
 end Hawk.Fmt
